@@ -27,11 +27,12 @@ Theorem C01_model_rejects_shadowing_default :
 Proof. exact refuted_F01c. Qed.
 Print Assumptions C01_model_rejects_shadowing_default.
 
-Theorem C01_refuted_F06d :
+(* F06d is fixed (133c12b); model fact: `from X import a` fails when X never binds a and X.a is not a module *)
+Theorem C01_model_rejects_unbound_import :
   c_static builtin_names w_F06d = false /\ c_closed w_F06d = true /\ c_acyclic w_F06d = true /\
   failed_with (ex w_F06d [n_p; n_ep]) EImport.
 Proof. exact refuted_F06d. Qed.
-Print Assumptions C01_refuted_F06d.
+Print Assumptions C01_model_rejects_unbound_import.
 
 (* a file that does not compile is the statement Broken in the model: the class of the open findings F13b, F04c
    (F01e, F20a, F01g were of this class and are fixed; their documents are regression cases) *)
@@ -45,6 +46,12 @@ Theorem C01_model_rejects_missing_module :
   c_closed w_F01f = false /\ failed_with (ex w_F01f [n_dup; n_dup; n_ep]) ENotFound.
 Proof. exact refuted_F01f. Qed.
 Print Assumptions C01_model_rejects_missing_module.
+
+(* F20e: Enum refuses _sunder_ member names *)
+Theorem C01_refuted_F20e :
+  c_static builtin_names w_F20e = false /\ c_parses w_F20e = true /\ failed_with (ex w_F20e [n_p; n_ev]) EValue.
+Proof. exact refuted_F20e. Qed.
+Print Assumptions C01_refuted_F20e.
 
 Theorem C01_guard_nonvacuous :
   pkg_ok builtin_names w_good = true /\
@@ -62,3 +69,29 @@ Theorem pkg_ok_sound : forall builtins pkg, pkg_ok builtins pkg = true ->
   forall m, In m pkg -> exec_pkg builtins pkg (size pkg) m = Ok tt.
 Proof. exact pkg_ok_sound. Qed.
 Print Assumptions pkg_ok_sound.
+
+(* The generator at skeleton level for the models sub-package (Model/GenModels.v, tied to the real ModelsEmitter by
+   Corr.C01.run_models).  The general statement
+       forall builtins root sp, acyclic_refs sp = true -> names_ok root sp = true ->
+         pkg_ok_with builtins (gen_models_skeleton root sp) (models_order root sp) = true
+   is NOT proved (see Proofs/GenModels.v and the manifest); it is evaluated on every generated spec of the modelled
+   fragment on every run.  Proved: a closed instance with every kind of reference, with the corollary (through
+   pkg_ok_with_sound) that all its modules import, and the cyclic counterpart. *)
+From PG Require Import Model.GenModels Proofs.GenModels.
+Theorem pkg_ok_with_sound : forall builtins pkg order, pkg_ok_with builtins pkg order = true ->
+  forall m, In m pkg -> exec_pkg builtins pkg (size pkg) m = Ok tt.
+Proof. exact pkg_ok_with_sound. Qed.
+Print Assumptions pkg_ok_with_sound.
+
+Theorem C01_models_instance_imports : forall m, In m (gen_models_skeleton g_root g_spec) ->
+  exec_pkg builtin_names (gen_models_skeleton g_root g_spec) (size (gen_models_skeleton g_root g_spec)) m = Ok tt.
+Proof. exact models_instance_imports. Qed.
+Print Assumptions C01_models_instance_imports.
+
+Theorem C01_models_cyclic_F01a :
+  acyclic_refs g_cyc = false /\
+  pkg_ok builtin_names (gen_models_skeleton g_root g_cyc) = false /\
+  exec_pkg builtin_names (gen_models_skeleton g_root g_cyc) (size (gen_models_skeleton g_root g_cyc))
+           (mkMod (g_root ++ [s_models; n_a]) []) = Fail EImport.
+Proof. exact models_cyclic. Qed.
+Print Assumptions C01_models_cyclic_F01a.
